@@ -256,11 +256,17 @@ macro_rules! basics {
 
 // ---------------------------------------------------------------- RawLRU
 pub type Raw<K> = RawLRU<K, TV, LogCb, DynBH>;
-impl<K: KeyT> Sut<K> for Raw<K> {
+/// the same cache built WITHOUT an eviction callback (`RawLRU::with_hasher`, the way most users build it): code that
+/// branches on `on_evict.is_none()` is only reached this way
+pub type RawNc<K> = RawLRU<K, TV, caches::DefaultEvictCallback, DynBH>;
+macro_rules! raw_sut {
+    ($ty:ident, $build:expr) => {
+impl<K: KeyT> Sut<K> for $ty<K> {
     const KIND: &'static str = "raw";
     fn build(cfg: &Value, env: &Env) -> Result<Self, String> {
         let cap = u(cfg, "cap") as usize;
-        RawLRU::with_on_evict_cb_and_hasher(cap, LogCb, env.bh()).map_err(|e| format!("{e:?}"))
+        let mk: fn(usize, DynBH) -> Result<Self, caches::lru::CacheError> = $build;
+        mk(cap, env.bh()).map_err(|e| format!("{e:?}"))
     }
     fn apply(&mut self, op: &Value, h: &mut Hold<K>) -> Value {
         if let Some(v) = common_apply(self, op, h) {
@@ -344,6 +350,10 @@ impl<K: KeyT> Sut<K> for Raw<K> {
         v
     }
 }
+    };
+}
+raw_sut!(Raw, |cap, bh| RawLRU::with_on_evict_cb_and_hasher(cap, LogCb, bh));
+raw_sut!(RawNc, |cap, bh| RawLRU::with_hasher(cap, bh));
 
 // ---------------------------------------------------------------- SegmentedCache
 pub type Seg<K> = SegmentedCache<K, TV, DynBH, DynBH>;
